@@ -17,6 +17,7 @@ PLAN = {
     "C20": {
         "level": "proof",
         "contracts": ["contracts.io_buffer"],
+        "bounded": ["bounded.c20"],
     },
     "C01": {
         "level": "proof",
@@ -130,10 +131,15 @@ MANIFEST_TEXT = {
                 "receiver), leaving earlier entries untouched; clear_by_party keeps exactly the entries that are not (from the "
                 "party and at an index <= to_idx), unchanged; _find_next_fragment returns the first index >= start with that "
                 "sender. Everything else in C20 (the run loop, threads, sockets, timeouts, arrival interleavings, validity of the "
-                "interaction tree) is NOT decided by this family and not claimed.",
+                "interaction tree) is NOT decided by this family and not claimed as proved. Bounded stand-in (never counted as "
+                "proved): scripted in-process protocol runs of two specs (request/reply/ack with constraints across messages; two "
+                "remote parties) over peer behaviours (valid, wrong type, constraint violating, garbage, truncated) and "
+                "fragmentations / interleavings of the remote data, judged against recognisers of the protocols: recorded "
+                "interaction is a correctly attributed prefix of the protocol, sends equal the recorded fuzzer messages, recorded "
+                "remote data equals delivered data, bad remote messages are never recorded.",
         "note": "sequential reasoning: `with self.receive_lock` is treated as transparent; get_full_fragments is not covered; the "
                 "property's schedule/fault quantifiers are outside contract-based deductive verification here.",
-        "technique": "contract-based deductive verification of three buffer functions (sequence theory, loop invariants), z3+cvc5",
+        "technique": "contract-based deductive verification of three buffer functions (sequence theory, loop invariants), z3+cvc5; bounded run-time contract check of scripted protocol runs as a stand-in for the run loop",
     },
     "C15": {
         "text": "Printer contracts on the real format_as_spec of Star/Plus/Option/Repetition/Alternative/NonTerminalNode by ghost "
